@@ -801,3 +801,155 @@ reg(Contract('dd.bdd.BDD.copy', [('self', 'mgr'), ('u', 'int'), ('other', 'mgr')
              post=lambda c: copy_bdd_post(type(c)(**{**c.__dict__, 'a': type(c)(u=c.a.u, from_bdd=c.a.self, from_bdd_key=c.a.self_key,
                                                                                to_bdd=c.a.other, to_bdd_key=c.a.other_key)})),
              modifies=REC_MOD + ['lastlen'], ret='int', uses=COPY_USES, raises=COPYBDD.raises))
+
+
+# ---------------------------------------------------------------------------------------------------------------
+# reordering plumbing (C09, C17): context manager, decorators
+from vlib.vc.symex import BoolV, MgrV, ObjV, ExcClassV, truth, is_none  # noqa: E402
+
+
+def _obj(c):
+    return c.path.env['self']
+
+
+reg(Contract('dd.bdd._ReorderingContext.__init__', [('self', 'obj:dd.bdd._ReorderingContext'), ('bdd', 'mgr')], mgr='bdd',
+             pre=lambda c: [], ret='none',
+             post=lambda c: [('fields', BoolVal(isinstance(_obj(c).attrs.get('bdd'), MgrV) and _obj(c).attrs['bdd'].key == c.a.bdd_key)),
+                             ('nested-unset', is_none(_obj(c).attrs['nested'])), ('state-kept', M.keep(c.S0, c.S1))]))
+reg(Contract('dd.bdd._ReorderingContext.__enter__', [('self', 'rcobj')], mgr='bdd', pre=lambda c: [], ret='none',
+             post=lambda c: [('nested-records-flag', truth(_obj(c).attrs['nested']) == c.S0.ctx), ('flag-set', c.S1.ctx),
+                             ('rest-kept', M.keep(c.S0, c.S1, [f for f in M.ALLF if f != 'ctx']))]))
+
+
+def exit_post(c):
+    nested = z3.Bool('nested0')
+    is_nr = isinstance(c.path.env['ex_type'], ExcClassV) and c.path.env['ex_type'].name == '_NeedsReordering'
+    return [('flag-restored', c.S1.ctx == nested), ('rest-kept', M.keep(c.S0, c.S1, [f for f in M.ALLF if f != 'ctx'])),
+            ('swallows-only-top-level-signal', c.r == (And(BoolVal(is_nr), Not(nested))))]
+
+
+import z3  # noqa: E402
+reg(Contract('dd.bdd._ReorderingContext.__exit__', [('self', 'rcobj'), ('ex_type', 'exc:None'), ('ex_value', 'optint'), ('tb', 'optint')],
+             mgr='bdd', pre=lambda c: [], post=exit_post, ret='bool'))
+
+# ---- abstract function under the decorators ------------------------------------------------------------------------
+_FSTATE = [f for f in M.FIELDS] + ['minfree', 'nvars', 'maxnodes', 'nsucc']
+
+
+def _fs(S):
+    return [getattr(S, f) for f in _FSTATE]
+
+
+_sorts = [M.Array('x', *M.FIELDS[f]).sort() if f in M.FIELDS else M.SCALARS[f] for f in _FSTATE]
+FPRE = z3.Function('FPRE', *(_sorts + [B]))
+FPOST = z3.Function('FPOST', *(_sorts + _sorts + [I, B]))
+FNRP = z3.Function('FNRP', *(_sorts + _sorts + [B]))
+FEXC = z3.Function('FEXC', *(_sorts + _sorts + [B]))
+_FMOD = [f for f in M.ALLF if f not in ('lastlen', 'ctx')]
+
+
+def _flags_kept(c):
+    return And(c.S1.lastlen == c.S0.lastlen, c.S1.ctx == c.S0.ctx)
+
+
+reg(Contract('FUNC', [('bdd', 'mgr'), ('args', 'opaque'), ('kwargs', 'opaque')], mgr='bdd',
+             pre=lambda c: [('FPRE', FPRE(*_fs(c.S))), ('in-context', c.S.ctx)],
+             post=lambda c: [('FPOST', FPOST(*(_fs(c.S0) + _fs(c.S1) + [c.r]))), ('flags-kept', _flags_kept(c)), ('enc', c.S1.lastlen >= -1)],
+             modifies=_FMOD, ret='int',
+             raises={'_NeedsReordering': Raise(when=lambda c: c.S0.lastlen >= 0,
+                                               post=lambda c: [('FNRP', FNRP(*(_fs(c.S0) + _fs(c.S1)))), ('flags', _flags_kept(c)),
+                                                               ('precondition-survives-the-aborted-attempt', FPRE(*_fs(c.S1)))]),
+                     'OtherError': Raise(when=lambda c: BoolVal(True), post=lambda c: [('FEXC', FEXC(*(_fs(c.S0) + _fs(c.S1)))), ('flags', _flags_kept(c))])},
+             assumed=True, note='abstract decorated function: uninterpreted pre/postconditions FPRE/FPOST (schema for every @_try_to_reorder '
+                                'method); schema requirement: when the body raises the signal its precondition still holds afterwards (the '
+                                'bodies under contract give WF and Ext on that exit, and their preconditions are stable under Ext)'))
+
+reg(Contract('dd.bdd.reorder', [('bdd', 'mgr'), ('order', 'optint')], mgr='bdd',
+             pre=lambda c: [], ret='none', modifies=_FMOD,
+             post=lambda c: [('precondition-of-the-retried-call-survives', Implies(FPRE(*_fs(c.S0)), FPRE(*_fs(c.S1)))),
+                             ('flags-kept', _flags_kept(c))],
+             assumed=True, note='ASSUMED (C07 bounded): reorder() keeps every referenced node (identity, function, count), hence the '
+                                'precondition of the call being retried; it does not touch the reordering switch or the nesting flag'))
+
+
+def wrap_post(c):
+    S0, S1 = c.S0, c.S1
+    g0 = guard(S0)
+    return [('ctx-restored', S1.ctx == S0.ctx), ('enc-lastlen', S1.lastlen >= -1),
+            ('reordering-still-enabled', (S1.lastlen >= 0) == (S0.lastlen >= 0)),
+            ('quiet-call-is-the-function', Implies(g0, And(FPOST(*(_fs(S0) + _fs(S1) + [c.r])), S1.lastlen == S0.lastlen)))]
+
+
+reg(Contract('dd.bdd._try_to_reorder._wrapper', [('bdd', 'mgr'), ('args', 'opaque'), ('kwargs', 'opaque')], mgr='bdd',
+             pre=lambda c: [('FPRE', FPRE(*_fs(c.S))), ('enc-lastlen', c.S.lastlen >= -1)], post=wrap_post, modifies=M.ALLF, ret='int',
+             raises={'_NeedsReordering': Raise(when=lambda c: And(c.S0.ctx, c.S0.lastlen >= 0),
+                                               post=lambda c: [('FNRP', FNRP(*(_fs(c.S0) + _fs(c.S1)))), ('flags', _flags_kept(c))]),
+                     'OtherError': Raise(when=lambda c: BoolVal(True), post=lambda c: [('ctx-restored', c.S1.ctx == c.S0.ctx)])}))
+
+reg(Contract('dd.bdd._suspend_reordering._wrapper', [('bdd', 'mgr'), ('args', 'opaque'), ('kwargs', 'opaque')], mgr='bdd',
+             pre=lambda c: [('FPRE', FPRE(*_fs(c.S))), ('enc-lastlen', c.S.lastlen >= -1), ('in-context-or-not', BoolVal(True))],
+             post=lambda c: [('setting-restored', _flags_kept(c))], modifies=M.ALLF, ret='int',
+             raises={'OtherError': Raise(when=lambda c: BoolVal(True), post=lambda c: [('setting-restored', _flags_kept(c))])},
+             note='the signal cannot be raised inside: requests are off for the duration (FUNCQ is called with lastlen = -1)'))
+# inside _suspend_reordering the wrapped function is called with ctx arbitrary: a second abstract function without `in-context`
+reg(Contract('FUNCQ', [('bdd', 'mgr'), ('args', 'opaque'), ('kwargs', 'opaque')], mgr='bdd',
+             pre=lambda c: [('FPRE', FPRE(*_fs(c.S))), ('requests-off', c.S.lastlen < 0)],
+             post=lambda c: [('FPOST', FPOST(*(_fs(c.S0) + _fs(c.S1) + [c.r]))), ('flags-kept', _flags_kept(c))],
+             modifies=_FMOD, ret='int',
+             raises={'_NeedsReordering': Raise(when=lambda c: c.S0.lastlen >= 0, post=lambda c: [('flags', _flags_kept(c))]),
+                     'OtherError': Raise(when=lambda c: BoolVal(True), post=lambda c: [('flags', _flags_kept(c))])},
+             assumed=True, note='abstract function under @_suspend_reordering'))
+
+
+# ---------------------------------------------------------------------------------------------------------------
+# collect_garbage (C06, C02)
+KEPT_FIELDS = ['lvl', 'lo', 'hi', 'sem', 'sem2', 'sem3', 'sem1', 'qex', 'qfa', 'hl', 'ext']
+
+
+def survivors_kept(E, S):
+    return ForAll([x_], Implies(S.dom[x_], And(E.dom[x_], *[getattr(S, f)[x_] == getattr(E, f)[x_] for f in KEPT_FIELDS])),
+                  patterns=[S.dom[x_]])
+
+
+def gc_common(E, S):
+    return [('survivors-kept', survivors_kept(E, S)),
+            ('removed-had-no-holder', ForAll([x_], Implies(And(E.dom[x_], Not(S.dom[x_])), E.ext[x_] == 0), patterns=[E.dom[x_]])),
+            ('external-counts-untouched', S.ext == E.ext),
+            ('order-kept', M.keep(E, S, list(M.ORDER_FIELDS) + ['nvars', 'lastlen', 'ctx', 'maxnodes'])),
+            ('never-grows', And(S.minfree <= E.minfree, S.nsucc <= E.nsucc))]
+
+
+def gc_inv(full):
+    def inv(c):
+        S, E = c.mgrs['self'], c.entry['self']
+        un = c.env['unused']
+        base = {k: v for k, v in WF(S, None).items() if not k.startswith('W7')}
+        out = list(base.items()) + gc_common(E, S) + [
+            ('unused-are-dead', ForAll([x_], Implies(un.has[x_], And(S.dom[x_], S.ref[x_] == 0, x_ > 1)), patterns=[un.has[x_]])),
+            ('cache-untouched', And(S.ch == E.ch, S.cv == E.cv))]
+        if full:
+            out.append(('every-dead-node-is-scheduled', ForAll([x_], Implies(And(S.dom[x_], x_ > 1, S.ref[x_] == 0), un.has[x_]),
+                                                               patterns=[S.dom[x_]])))
+        return out
+    return inv
+
+
+def gc_post(full):
+    def post(c):
+        S0, S1 = c.S0, c.S1
+        out = wf(S1, None) + gc_common(S0, S1) + [
+            ('held-nodes-survive', ForAll([x_], Implies(And(S0.dom[x_], S0.ext[x_] > 0), S1.dom[x_]), patterns=[S0.dom[x_]])),
+            ('computed-table-emptied', ForAll([M._t], Not(S1.ch[M._t]), patterns=[S1.ch[M._t]]))]
+        if full:
+            out.append(('no-unreferenced-node-left', ForAll([x_], Implies(And(S1.dom[x_], x_ > 1), S1.ref[x_] > 0), patterns=[S1.dom[x_]])))
+        return out
+    return post
+
+
+GC_MOD = ['dom', 'ref', 'indeg', 'ph', 'pv', 'minfree', 'ch', 'cv', 'nsucc']
+for _full, _nm, _kind in ((True, 'dd.bdd.BDD.collect_garbage', 'none'), (False, 'dd.bdd.BDD.collect_garbage!roots', 'set:int')):
+    reg(Contract(_nm, [('self', 'mgr'), ('roots', _kind)],
+                 pre=lambda c, _k=_kind: wf(c.S, None) + ([('roots-are-refs', ForAll([x_], Implies(c.a.roots.has[x_], isref(c.S, x_)),
+                                                                                         patterns=[c.a.roots.has[x_]]))] if _k != 'none' else []),
+                 post=gc_post(_full), modifies=GC_MOD, ret='none', uses=None,
+                 loops={0: dict(inv=gc_inv(_full), modifies_sets=['unused'], modifies_mgr=[('self', GC_MOD)])}))
